@@ -84,8 +84,8 @@ def jobs_c02(tier, seed):
     for n, b in STEP_CASES:
         jobs.append(J(f"c02::{n}", features=f, timeout_s=1800, mem_gb=20, expect_gb=5, all_covers=False, min_covers=1,
                       bound="one step from an arbitrary valid parser state: " + b))
-    # the documented limits: two of the eight shapes per quick run (rotated by the seed), all in thorough
-    lim = STEP_LIMITS if tier == "thorough" else [STEP_LIMITS[(0 + seed) % 8], STEP_LIMITS[(5 + seed) % 8]]
+    # the documented limits: one OSC-limit shape per quick run (rotated by the seed), all eight in thorough
+    lim = STEP_LIMITS if tier == "thorough" else [STEP_LIMITS[5 + (seed % 3)]]
     for n, b in lim:
         jobs.append(J(f"c02::{n}", features=f, timeout_s=3600, mem_gb=30, expect_gb=16, all_covers=False, min_covers=1,
                       bound="one step from an arbitrary valid parser state: " + b))
@@ -145,8 +145,9 @@ def jobs_c01(tier, seed):
         jobs.append(J(f"c01::bytes_incremental_{n}", features=f, timeout_s=to, mem_gb=mem, optional=opt, bound=f"StripBytes::strip_next: every byte string of length {n}"))
         if n <= 4:
             jobs.append(J(f"c01::stream_{n}", features=f, timeout_s=to, mem_gb=mem, optional=n >= 4, bound=f"StripStream::write_all over &mut dyn Write: every byte string of length {n}"))
-            jobs.append(J(f"c01::str_oneshot_{n}", features=f, timeout_s=to, mem_gb=mem, bound=f"strip_str: every UTF-8 string of {n} bytes"))
-            jobs.append(J(f"c01::str_incremental_{n}", features=f, timeout_s=to, mem_gb=mem, bound=f"StripStr::strip_next: every UTF-8 string of {n} bytes"))
+            if n <= 2 or tier == "thorough":
+                jobs.append(J(f"c01::str_oneshot_{n}", features=f, timeout_s=to, mem_gb=mem, bound=f"strip_str: every UTF-8 string of {n} bytes"))
+                jobs.append(J(f"c01::str_incremental_{n}", features=f, timeout_s=to, mem_gb=mem, bound=f"StripStr::strip_next: every UTF-8 string of {n} bytes"))
     return jobs
 
 
@@ -164,15 +165,13 @@ def jobs_c04(tier, seed):
 
     add("c02::transition_table", ["c02"], "parser: transmute-based unpack of every table entry (invalid enum values), all states x all bytes")
     add("c02::run_from_new_2", ["c02"], "parser: every 2-byte stream from new(), all default checks")
-    for st in ["step_csi_param_2", "step_osc_2", "step_dcs_passthrough", "step_ground", "step_escape_intermediate"]:
+    for st in ["step_csi_param_2", "step_osc_2", "step_ground"]:
         add(f"c02::{st}", ["c02"], f"parser: one step from an arbitrary valid state ({st}), any byte: every unsafe block, MaybeUninit OSC slices, index arithmetic")
     add("c01::bytes_oneshot_2", ["c01"], "strip_bytes: every 2-byte string, all default checks")
     add("c01::bytes_oneshot_3", ["c01"], "strip_bytes: every 3-byte string", to=2400)
     add("c01::str_oneshot_2", ["c01"], "strip_str: every 2-byte UTF-8 string: returned pieces valid UTF-8 inside the input (from_utf8_unchecked under debug assertions)")
-    add("c01::str_oneshot_3", ["c01"], "strip_str: every 3-byte UTF-8 string", to=2400)
     add("c05::slot_fg", ["c05"], "DisplayBuffer (19-byte capacity) for every colour, all default checks")
-    add("c05::slot_underline", ["c05"], "DisplayBuffer via the underline slot (longest code), every colour")
-    for sh in ["csi_k1_s0", "csi_k3_s0", "csi_k5_s0", "csi_k5_s15"]:
+    for sh in ["csi_k3_s0", "csi_k5_s0"]:
         add(f"c07::harness::{sh}", ["c07"], f"styled-run extractor csi_dispatch shape {sh}: expect(\"within 4-bit range\"), `as u8` truncations, every u16 value")
     add("c10::palette_scan_lowest_minimum", ["c10"], "Palette::find_match best_index panic path, any palette / table", stub=True)
     add("c10::direct_conversions", ["c10"], "lossy conversions: table indexing for every index and palette")
@@ -180,6 +179,11 @@ def jobs_c04(tier, seed):
     add("c12::ls_codes_3", ["c12"], "LS_COLORS code interpreter on every 3-code list (38/48/58 look-ahead)", stub=True)
     if tier == "thorough":
         add("c01::bytes_oneshot_4", ["c01"], "strip_bytes: every 4-byte string", to=2 * 3600, mem=24, opt=True)
+        add("c01::str_oneshot_3", ["c01"], "strip_str: every 3-byte UTF-8 string", to=3600, mem=20)
+        add("c05::slot_underline", ["c05"], "DisplayBuffer via the underline slot (longest code), every colour")
+        add("c02::step_dcs_passthrough", ["c02"], "parser step in DcsPassthrough")
+        add("c02::step_escape_intermediate", ["c02"], "parser step in EscapeIntermediate")
+        add("c07::harness::csi_k5_s15", ["c07"], "csi_dispatch shape 38:2:r:g:b")
         add("c02::run_from_new_3", ["c02"], "parser: every 3-byte stream from new()", to=3600, mem=24, opt=True)
         add("c02::step_csi_param_32", ["c02"], "parser step at the 32-parameter limit", to=3600, mem=24, opt=True)
         add("c02::step_osc_16", ["c02"], "parser step at the 16-field OSC limit", to=3600, mem=24, opt=True)
@@ -198,8 +202,8 @@ def jobs_c05(tier, seed):
         ("effects_single_6_9", "effects DOTTED_UNDERLINE, DASHED_UNDERLINE, BLINK alone, same checks"),
         ("effects_single_9_12", "effects INVERT, HIDDEN, STRIKETHROUGH alone, same checks"),
         ("effects_structure", "every one of the 4096 effect sets: in-order concatenation of its members' renderings"),
-        ("style_structure_display", "every style value (4096 effect sets x any colour in each slot): Display is the in-order concatenation of exactly its parts' renderings"),
-        ("style_structure_write_to", "same for the io::Write path"),
+        ("style_structure_display_fx", "a concrete effect set {BOLD, UNDERLINE, STRIKETHROUGH} x any colour of any kind in any subset of the three slots: Display is the in-order concatenation of exactly its parts' renderings"),
+        ("style_structure_write_to_fx", "same for the io::Write path with effects {DIMMED, DOUBLE_UNDERLINE, HIDDEN}"),
         ("reset_forms", "every style x every prior terminal state: {:#}, render_reset, write_reset_to, Reset"),
         ("flags_width", "4 format strings x (2 effects + any colour fg + any 256-colour underline)"),
         ("flags_fill", "4 format strings, same shape"),
@@ -211,7 +215,10 @@ def jobs_c05(tier, seed):
     ]
     jobs = [J(f"c05::{n}", features=f, timeout_s=1200, bound=b) for n, b in names]
     if tier == "thorough":
-        jobs.append(J("c05::style_structure_render", features=f, timeout_s=3600, bound="every style value: Style::render() is the in-order concatenation of exactly its parts' renderings"))
+        for n in ["style_structure_display_k012", "style_structure_display_k120", "style_structure_write_to_k201", "style_structure_write_to_k012"]:
+            jobs.append(J(f"c05::{n}", features=f, timeout_s=3600, mem_gb=20, bound="every effect set x optional colour per slot with the colour kind per slot fixed: in-order concatenation of exactly its parts' renderings"))
+        for n in ["style_structure_display", "style_structure_write_to", "style_structure_render"]:
+            jobs.append(J(f"c05::{n}", features=f, timeout_s=3600, mem_gb=20, bound="every style value, colour kinds symbolic as well: in-order concatenation of exactly its parts' renderings"))
         for n in ["full_interpret_ansi_rgb_256", "full_interpret_rgb_256_ansi", "full_interpret_256_ansi_rgb"]:
             jobs.append(J(f"c05::{n}", features=f, timeout_s=3600, mem_gb=20, optional=True, bound="fragmentation-independent interpretation of a whole style: 3-4 concrete effects, all three colours symbolic (kinds fixed)"))
     return jobs
@@ -258,34 +265,52 @@ C07_THOROUGH = ["csi_k5_s6", "csi_k5_s3", "csi_k5_s12", "csi_k5_s1", "csi_k6_s0"
 
 def jobs_c06(tier, seed):
     f = ["c06"]
-    desc = "one write() of {n} symbolic byte(s) from the state carried after the prefix {p}; inner writer script: accept sizes in {{0,1,2,3,all}} per call, one error (Interrupted/WouldBlock/Other) at any inner call or none"
-    w1 = [("write_1_ground", "''"), ("write_1_escape", "ESC"), ("write_1_csi", "ESC ["), ("write_1_utf8_1", "E2"), ("write_1_utf8_2", "F0 9F")]
-    w2 = [("write_2_ground", "''"), ("write_2_escape", "ESC"), ("write_2_csi", "ESC ["), ("write_2_osc", "ESC ]"), ("write_2_utf8_1", "E2"), ("write_2_utf8_2", "F0 9F")]
-    jobs = []
-    # quick: two carried states, rotated by the seed; thorough: all
-    pick = w1 if tier == "thorough" else [w1[3], w1[(seed + 1) % len(w1) if (seed + 1) % len(w1) != 3 else 0]]
-    for n, p in pick:
-        jobs.append(J(f"c06::{n}", features=f, timeout_s=3600, mem_gb=24, bound=desc.format(n=1, p=p)))
+    q = [
+        ("write_s_all_utf8", "write(): 1 symbolic byte inside a 3-byte character; inner writer accepts everything"),
+        ("write_s_short0_utf8", "write(): 1 symbolic byte inside a 3-byte character; inner writer accepts 0 bytes (short write)"),
+        ("write_s_err0_utf8", "write(): same state; inner writer fails at its first call (Interrupted / WouldBlock / Other)"),
+        ("write_s_short0_ground", "write(): 1 symbolic byte from Ground; short write of 0"),
+        ("write_s_err0_csi", "write(): 1 symbolic byte inside a CSI sequence; error at the first inner call"),
+        ("write_s_short1_ground2", "write(): 2 symbolic bytes from Ground; inner writer accepts 1 byte"),
+    ]
+    q2 = [
+        ("write_s_err1_two_runs", "write(): text, C0 control, text (two printable runs, all symbolic); error at the second inner call"),
+        ("write_s_short0_second_run", "write(): two printable runs; the second inner call accepts 0 bytes"),
+    ]
+    jobs = [J(f"c06::{n}", features=f, timeout_s=1800, mem_gb=24, expect_gb=6, all_covers=False, min_covers=1, bound=b + " -- concrete script, symbolic buffer and error kind") for n, b in q]
     jobs += [
-        J("c06::write_all_2", features=f, timeout_s=3600, mem_gb=24, bound="one write_all() of a 2-byte buffer from any state reachable by a 2-byte prefix; error of any kind at any inner call"),
-        J("c06::write_fmt_2", features=f, timeout_s=3600, mem_gb=24, bound="write_fmt of two 1-byte ASCII fragments; error at any inner call"),
+        J("c06::write_all_2", features=f, timeout_s=1800, mem_gb=24, expect_gb=6, bound="one write_all() of a 2-byte buffer from any state reachable by a 2-byte prefix; error of any kind at any inner call"),
+        J("c06::write_fmt_2", features=f, timeout_s=1800, mem_gb=24, expect_gb=6, bound="write_fmt of two 1-byte ASCII fragments; error at any inner call"),
     ]
     if tier == "thorough":
-        jobs.append(J("c06::write_vectored_2", features=f, timeout_s=2 * 3600, mem_gb=30, optional=True, bound="write_vectored of (<=1 byte, 2 bytes); any accept sizes"))
+        for n, b in q2:
+            jobs.append(J(f"c06::{n}", features=f, timeout_s=2 * 3600, mem_gb=30, expect_gb=12, optional=True, all_covers=False, min_covers=1, bound=b + " -- concrete script, symbolic buffer and error kind"))
+        desc = "one write() of {n} symbolic byte(s) from the state carried after the prefix {p}; SYMBOLIC script: accept sizes in {{0,1,2,3,all}} per call, one error (Interrupted/WouldBlock/Other) at any inner call or none"
+        w1 = [("write_1_ground", "''"), ("write_1_escape", "ESC"), ("write_1_csi", "ESC ["), ("write_1_utf8_1", "E2"), ("write_1_utf8_2", "F0 9F")]
+        w2 = [("write_2_ground", "''"), ("write_2_csi", "ESC ["), ("write_2_utf8_1", "E2")]
+        for n, p in w1:
+            jobs.append(J(f"c06::{n}", features=f, timeout_s=3600, mem_gb=24, expect_gb=8, all_covers=False, min_covers=1, bound=desc.format(n=1, p=p)))
         for n, p in w2:
-            jobs.append(J(f"c06::{n}", features=f, timeout_s=3 * 3600, mem_gb=30, optional=True, bound=desc.format(n=2, p=p)))
+            jobs.append(J(f"c06::{n}", features=f, timeout_s=3 * 3600, mem_gb=30, expect_gb=16, optional=True, all_covers=False, min_covers=1, bound=desc.format(n=2, p=p)))
+        jobs.append(J("c06::write_vectored_2", features=f, timeout_s=2 * 3600, mem_gb=30, expect_gb=16, optional=True, bound="write_vectored of (<=1 byte, 2 bytes); any accept sizes"))
     return jobs
 
 
 def jobs_c18(tier, seed):
     f = ["c18"]
     jobs = [J("console::harness::cap_color_complete", crate="wincon", features=f, timeout_s=600, bound="cap_wincon_color: every colour (complete)")]
-    cuts = [2, 5] if tier == "quick" else [0, 1, 2, 5, 9]
-    for c in cuts:
-        jobs.append(J(f"console::harness::write_all_cut_{c}", crate="wincon", features=f, timeout_s=3600, mem_gb=24,
-                      bound=f"write_all over 'c ESC[3d;4em c' (text and colour digits symbolic) split after byte {c} into two calls; console script: <=5 calls, any accept sizes, one error (WouldBlock/Interrupted/Other) at any call"))
-    jobs.append(J("console::harness::write_reports_consumed_only_if_handed_over", crate="wincon", features=f, timeout_s=3600, mem_gb=24,
-                  bound="write() over the same skeleton; any accept sizes, one error at any of the first 3 console calls"))
+    scripts = [("write_all_s_accept_all", "console accepts everything"), ("write_all_s_zero_second", "the second console call accepts 0 bytes (WriteZero)"),
+               ("write_all_s_fail_first", "the first console call fails (WouldBlock / Interrupted / Other)"), ("write_all_s_fail_second", "the second console call fails")]
+    for n, what in scripts:
+        jobs.append(J(f"console::harness::{n}", crate="wincon", features=f, timeout_s=1800, mem_gb=20, expect_gb=6, all_covers=False, min_covers=1,
+                      bound=f"write_all over 'c ESC[4em c' (text, colour digit and error kind symbolic) split after ESC into two calls; concrete console script: {what}"))
+    if tier == "thorough":
+        for c in [0, 1, 2, 4, 6]:
+            jobs.append(J(f"console::harness::write_all_cut_{c}", crate="wincon", features=f, timeout_s=2 * 3600, mem_gb=30, expect_gb=12, optional=True, all_covers=False, min_covers=1,
+                          bound=f"write_all over the same skeleton split after byte {c}; SYMBOLIC console script: <=4 calls, any accept sizes, one error at any call"))
+    if tier == "thorough":
+        jobs.append(J("console::harness::write_reports_consumed_only_if_handed_over", crate="wincon", features=f, timeout_s=2 * 3600, mem_gb=30, expect_gb=12, optional=True, all_covers=False, min_covers=1,
+                      bound="write() over the same skeleton; any accept sizes, one error at any of the first 3 console calls"))
     return jobs
 
 
@@ -299,12 +324,11 @@ C20_CONFIGS = [
 
 def jobs_c20(tier, seed):
     jobs = []
-    common = ["c02::run_from_new_2", "c02::step_ground", "c02::step_escape", "c02::step_csi_param_2",
-              "c02::step_dcs_passthrough", "c02::step_osc_0", "c02::step_osc_2"]
-    boundary = ["c20::osc_boundary_1023", "c20::osc_boundary_1024", "c20::osc_boundary_1024_cut"]
+    common = ["c02::run_from_new_2", "c02::step_ground", "c02::step_csi_param_2", "c02::step_osc_2"]
+    boundary = ["c20::osc_boundary_1023", "c20::osc_boundary_1024"]
     if tier == "thorough":
-        common += ["c02::transition_table", "c02::run_from_new_3", "c02::step_osc_16", "c02::step_csi_param_32", "c02::step_csi_intermediate", "c02::step_dcs_param", "c02::step_osc_15", "c02::step_sos", "c02::step_csi_entry"]
-        boundary += ["c20::osc_boundary_1022", "c20::osc_boundary_1023_cut"]
+        common += ["c02::transition_table", "c02::step_escape", "c02::step_dcs_passthrough", "c02::step_osc_0", "c02::run_from_new_3", "c02::step_osc_16", "c02::step_csi_param_32", "c02::step_csi_intermediate", "c02::step_dcs_param", "c02::step_osc_15", "c02::step_sos", "c02::step_csi_entry"]
+        boundary += ["c20::osc_boundary_1022", "c20::osc_boundary_1023_cut", "c20::osc_boundary_1024_cut"]
     for cfg, feats in C20_CONFIGS:
         f = ["c20", "seven_bit"] + feats
         for h in common:
@@ -423,23 +447,30 @@ def jobs_c12(tier, seed):
         to = {1: 600, 2: 900, 3: 1200, 4: 2400, 5: 2 * 3600, 6: 3 * 3600}[k]
         jobs.append(J(f"c12::ls_codes_{k}", features=f, stubbing=True, timeout_s=to, mem_gb=16 if k < 5 else 24, optional=k >= 6, replay="none",
                       bound=f"every list of {k} codes (256^{k} lists), every field a number"))
-    rej = [(1, 0), (2, 0), (2, 1)] + ([(3, 0), (3, 1), (3, 2)] if tier == "thorough" else [])
+    rej = [(2, 1), (3, 2)] + ([(3, 1), (4, 3)] if tier == "thorough" else [])
     for k, at in rej:
         jobs.append(J(f"c12::ls_reject_{k}_at_{at}", features=f, stubbing=True, timeout_s=1200, mem_gb=16, replay="none",
                       bound=f"every list of {k} fields in which field {at} fails to parse (any other codes) -> rejected"))
+    for t, what in [("x", "'x'"), ("trailing", "'1;'"), ("256", "'256'"), ("space", "'1; 2'"), ("minus", "'-1'")]:
+        jobs.append(J(f"c12::ls_reject_text_{t}", features=f, timeout_s=900, min_covers=1,
+                      bound=f"the malformed text {what} through the real decimal parser (no stub) -> rejected"))
     return jobs
 
 
 def jobs_c17(tier, seed):
     f = ["c17"]
-    names = [
-        ("colored_fg_bg", "both colours given (16x16), data <=3 bytes, any accepted count, failure at any of the 4 inner writes or none"),
-        ("colored_fg_only", "foreground only, same script space (3 inner writes)"),
-        ("colored_bg_only", "background only, same script space"),
-        ("colored_none", "no colour: no code at all, one data write"),
-        ("colored_vec", "Vec<u8> writer: 17x17 colour pairs x 2 data bytes, byte-identical to what a dyn Write receives"),
-    ]
-    return [J(f"c17::{n}", features=f, timeout_s=900, bound=b) for n, b in names]
+    jobs = []
+    shapes = [("fg_bg", 4, "both colours"), ("fg_only", 3, "foreground only"), ("bg_only", 3, "background only"), ("none", 1, "no colour")]
+    for sh, ncalls, what in shapes:
+        jobs.append(J(f"c17::colored_{sh}_ok", features=f, timeout_s=1200, all_covers=False, min_covers=1,
+                      bound=f"{what} (all 16 values each), data <=3 bytes, any accepted count, no failure"))
+        for k in range(ncalls):
+            if sh == "none" and k > 0:
+                continue
+            jobs.append(J(f"c17::colored_{sh}_fail{k}", features=f, timeout_s=1200, all_covers=False, min_covers=1,
+                          bound=f"{what}, data <=3 bytes, inner write #{k} fails with Interrupted / WouldBlock / Other"))
+    jobs.append(J("c17::colored_vec", features=f, timeout_s=1200, bound="Vec<u8> writer: 17x17 colour pairs x 2 data bytes, byte-identical to what a dyn Write receives"))
+    return jobs
 
 
 def pre_c16(prop, tier, seed, out):
@@ -525,7 +556,7 @@ REGISTRY = {
         "jobs": jobs_c06,
         "level": "model_checking",
         "functions": ["anstream::strip::{write, write_all, write_fmt, offset_to} behind StripStream::<&mut dyn Write>::{write, write_vectored, write_all, write_fmt}", "anstream::fmt::Adapter::{write_fmt, write_str}", "anstream::adapter::StripBytes::strip_next"],
-        "bounds": {"quick": "write(): 1 symbolic byte from 2 of 5 concrete carried states (Ground, Escape, CsiEntry, inside a 3-byte and a 4-byte character), scripts of <=4 inner calls with accept sizes {0,1,2,3,all} and <=1 injected error of kind Interrupted/WouldBlock/Other; write_all / write_fmt: 2 bytes from any state reachable by a 2-byte prefix", "thorough": "write(): 1 and 2 symbolic bytes from all carried states; write_vectored"},
+        "bounds": {"quick": "write(): 6 concrete inner-writer scripts (accept all / short write of 0 or 1 / error at the first inner call) x symbolic buffers of 1-2 bytes x symbolic error kind, from carried states Ground, CsiEntry and inside a character; write_all / write_fmt: 2 bytes from any state reachable by a 2-byte prefix, error at any inner call", "thorough": "write() over two printable runs with an error / short write at the second inner call (optional: the replay after a short write makes this the most expensive query of the repository); fully symbolic scripts (accept sizes {0,1,2,3,all}, one error anywhere) for 1 byte from 5 carried states and 2 bytes from 3 (optional); write_vectored (optional)"},
         "outside": "longer buffers within one call; more than one injected error per call; the protocol over several calls follows by induction from the lemma's state clause (not unrolled)",
         "assumptions": ["the reference for 'stripped form' is an independent copy of StripBytes run on the consumed prefix (C01 ties StripBytes to the model)", "hook StripStream::verif_state observes the carried state", "inputs of the recorded C01 finding class (control byte inside broken UTF-8) are excluded while that finding is open"],
     },
@@ -533,7 +564,7 @@ REGISTRY = {
         "jobs": jobs_c18,
         "level": "model_checking",
         "functions": ["anstream/src/wincon.rs include!d from the working tree: write, write_all, write_fmt, cap_wincon_color, impl Write for WinconStream<S> (compiled, not driven)", "anstream::adapter::WinconBytes::extract_next (parser + styled-run capture)", "anstream/src/fmt.rs Adapter"],
-        "bounds": {"quick": "colour capping complete; write loop: skeleton input of 10 bytes with one SGR sequence (2 visible bytes, 2 colour digits symbolic), split after ESC and inside the parameter list, console scripts of <=5 calls with arbitrary short counts and one injected error incl. Interrupted", "thorough": "five split positions"},
+        "bounds": {"quick": "colour capping complete; write loop: skeleton input of 7 bytes with one SGR sequence (2 visible bytes, colour digit symbolic), split after ESC into two write_all calls, 4 concrete console scripts (accept all / zero-length acceptance / error at the first or second call, kind symbolic)", "thorough": "five split positions with fully symbolic console scripts, and the write() contract (optional: hours)"},
         "outside": "other input shapes (the run extraction itself is C07); more than two chunks; Interrupted errors (retried by design, would need an unbounded loop)",
         "assumptions": ["stand-ins for crate::stream::{AsLockedWrite,IsTerminal} (harness/wincon/src/lib.rs) mirror the Windows bounds; crate::adapter and crate::fmt are the real code"],
     },
@@ -551,7 +582,7 @@ REGISTRY = {
         "jobs": jobs_c20,
         "level": "model_checking",
         "functions": ["anstyle_parse::Parser::advance and everything below it, built four times: features {utf8} (default), {core}, {core,utf8}, {} ", "ArrayVec-backed osc_raw (core) incl. the is_full early return", "AsciiParser::add (unreachable! shown unreachable on 7-bit input)"],
-        "bounds": {"quick": "per configuration: lock-step runs of <=2 arbitrary 7-bit bytes from Parser::new(); one-step refinement from arbitrary states Ground/Escape/CsiParam/DcsPassthrough/OscString; OSC payload at lengths 1023 and 1024 (concrete filler) followed by two arbitrary 7-bit bytes, BEL and a CSI sequence", "thorough": "more states, runs of 3 bytes, the 32-parameter and 16-field limits, boundary lengths 1022..1024 with and without a completed field"},
+        "bounds": {"quick": "per configuration: lock-step runs of <=2 arbitrary 7-bit bytes from Parser::new(); one-step refinement from arbitrary states Ground/CsiParam/OscString; OSC payload at lengths 1023 and 1024 (concrete filler) followed by two arbitrary 7-bit bytes, BEL and a CSI sequence", "thorough": "more states, runs of 3 bytes, the 32-parameter and 16-field limits, boundary lengths 1022..1024 with and without a completed field"},
         "outside": "OSC payloads of 1000..1100 bytes fed byte by byte from new() (the step lemma at the boundary lengths stands in for them); payload content other than the filler byte at the boundary (capacity logic does not read it)",
         "assumptions": ["equality across configurations follows by transitivity through the shared reference model vmodels::vt (fixed-buffer variant: payload truncated at 1024 bytes, separators arriving while full dropped)"],
     },
@@ -602,7 +633,7 @@ REGISTRY = {
             "utf8parse::Parser::advance",
         ],
         "bounds": {
-            "quick": "every byte string of length <=3 (all 256 values per position) through strip_bytes, StripBytes and StripStream; every UTF-8 string of <=3 bytes through strip_str and StripStr",
+            "quick": "every byte string of length <=3 (all 256 values per position) through strip_bytes, StripBytes and StripStream; every UTF-8 string of <=2 bytes through strip_str and StripStr",
             "thorough": "byte strings of length <=5 (length 5 optional), streams and UTF-8 strings <=4 bytes",
         },
         "outside": "inputs longer than the bound (the several-KiB generated streams of the property text); AutoStream::never is covered by C08",
@@ -666,7 +697,7 @@ REGISTRY = {
             "utf8parse::Parser::advance",
         ],
         "bounds": {
-            "quick": "transition function complete (14 states x 256 bytes); one-step refinement from an arbitrary valid state in 20 shapes (every state) plus 2 of the 8 limit shapes (31/32 parameters, 15/16 OSC fields; rotated by VERIF_SEED); lock-step runs from Parser::new() of <=2 bytes over all 256 values",
+            "quick": "transition function complete (14 states x 256 bytes); one-step refinement from an arbitrary valid state in 20 shapes (every state) plus 1 of the 3 OSC-limit shapes (15/16 fields; rotated by VERIF_SEED); lock-step runs from Parser::new() of <=2 bytes over all 256 values",
             "thorough": "all 28 step shapes; runs of <=4 bytes (4 optional)",
         },
         "outside": "streams longer than the run bound that are not covered by the one-step lemma's invariant; OSC payloads longer than the model buffer",
